@@ -266,6 +266,8 @@ pub fn run_session(mut fsm: Box<Fsm>, events: &[String], mode: Mode, timeout: Du
     let mut actions = ActionWrapper::new();
     actions.add_action("mark", Box::new(MarkAction { sh: sh.clone() }));
     let executor = FsmExecutor::new_without_io_processor();
+    // the repository's own conformance setting for ECMAScript (test/w3c/test_config.json)
+    executor.state.lock().unwrap().datamodel_options.insert("ecma:strict".to_string(), String::new());
     let mut session = rufsm::fsm::start_fsm_with_data_and_finish_mode(fsm, actions, Box::new(executor.clone()), &[], FinishMode::KEEP_CONFIGURATION);
     // the session thread is parked in the tracer ("interpret") until `start` is filled
     {
